@@ -66,16 +66,64 @@ class Sub2(Base):
         self.k = k
 
 
+class Adam:
+    def __init__(self, lr: float = 0.001, beta: float = 0.9):
+        self.lr, self.beta = lr, beta
+
+
+class Sgd:
+    def __init__(self, lr: float = 0.1, momentum: float = 0.0):
+        self.lr, self.momentum = lr, momentum
+
+
+def make_opt(kind: str = "adam", **kwargs):
+    """`lr` has a different default in each branch: a conditional default (what get_defaults returns for it is not what
+    the action declares)."""
+    if kind == "adam":
+        return Adam(**kwargs)
+    else:
+        return Sgd(**kwargs)
+
+
+# the default config file of every root parser lives in the scratch directory; the ENVIRONMENT writes (v1), edits (v2) or
+# removes (absent) it between calls - a fresh parser is always built against the current file
+DCF = {"A": {"v1": "w: [4]\n", "v2": "w: [6]\ngrid: [[8]]\ncls:\n  class_path: Sub1\n  init_args:\n    m: f\n"},
+       "B": {"v1": "v: 4\n", "v2": "v: 9\nu: [z]\n"}}
+
+
+def dcf_path(root: str, d: Optional[str] = None) -> str:
+    return os.path.join(d or os.getcwd(), f"dcf_{root}.yaml")
+
+
+def set_dcf(root: str, state: str, d: Optional[str] = None) -> None:
+    path = dcf_path(root, d)
+    if state == "absent":
+        if os.path.exists(path):
+            os.remove(path)
+    else:
+        with open(path, "w") as f:
+            f.write(DCF[root][state])
+
+
+def get_dcf(root: str, d: Optional[str] = None) -> str:
+    path = dcf_path(root, d)
+    if not os.path.exists(path):
+        return "absent"
+    txt = open(path).read()
+    return next((k for k, v in DCF[root].items() if v == txt), "other")
+
+
 def link_fn(x):
     if x == 13:
         raise ValueError("unlucky")
     return x
 
 
-def build(root: str) -> dict:
-    """name -> parser for root parser `root` and its sub-parsers (A: sub-commands, class argument, link, config; B: plain)."""
+def build(root: str, d: Optional[str] = None) -> dict:
+    """name -> parser for root parser `root` and its sub-parsers (A: sub-commands, class argument, link, config; B: plain).
+    Both have default_config_files configured (the file need not exist)."""
     if root == "A":
-        p = ArgumentParser(prog="app", exit_on_error=False, env_prefix="APP", default_env=False)
+        p = ArgumentParser(prog="app", exit_on_error=False, env_prefix="APP", default_env=False, default_config_files=[dcf_path("A", d)])
         p.add_argument("--cfg", action=ActionConfigFile)
         p.add_argument("--x", type=int, default=1)
         p.add_argument("--w", type=Optional[List[int]], default=None)
@@ -97,12 +145,13 @@ def build(root: str) -> dict:
         sc.add_subcommand("a", a)
         sc.add_subcommand("b", b)
         return {"A": p, "A.a": a, "A.b": b}
-    p = ArgumentParser(prog="other", exit_on_error=True, env_prefix="OTH", default_env=False)
+    p = ArgumentParser(prog="other", exit_on_error=True, env_prefix="OTH", default_env=False, default_config_files=[dcf_path("B", d)])
     p.add_argument("--cfg", action=ActionConfigFile)
     p.add_argument("--v", type=int, default=0)
     p.add_argument("--u", type=Optional[List[str]], default=None)
     p.add_argument("--cls", type=Base)  # class-typed, NO default class: a spec without class_path must be rejected
     p.add_argument("--grid", type=List[List[float]], default=[[5, 6]])
+    p.add_function_arguments(make_opt, "opt")  # conditional defaults
     return {"B": p}
 
 
@@ -130,6 +179,7 @@ PIECES = {
         "pcflag": [["--print_config=bogus"]],
         "help": [["--help"], ["-h"]],
         "clshelp": [["--cls.help=Sub2"], ["--cls.help", "Sub1"]],
+        "shtab": [["--print_shtab=bash"], ["--print_shtab", "zsh"]],
         "cfg": [["--cfg", '{"w": [7]}'], ["--cfg=w: [8]"], ["--cfg", "a_ok.yaml"]],
         "cfgbad": [["--cfg", '{"w": "bad"}'], ["--cfg", "a_bad.yaml"], ["--cfg=no_such_file.yaml"],
                    ["--cfg", '{"cls": {"init_args": {"k": "not a number"}}}']],
@@ -153,7 +203,8 @@ PIECES = {
         "ncls": [["--c2=Sub2", "--c2.k=0.25"], ["--c2=Sub1", "--c2.init_args.m=s"]],
     },
     "B": {
-        "ok": [["--v=2"], ["--v", "3"], ["--u=[a,b]"], ["--u+=c"], ["--grid=[[7, 8]]"], ["--cls=Sub1"]],
+        "ok": [["--v=2"], ["--v", "3"], ["--u=[a,b]"], ["--u+=c"], ["--grid=[[7, 8]]"], ["--cls=Sub1"], ["--opt.kind=sgd"], ["--opt.lr=0.5"]],
+        "shtab": [["--print_shtab=bash"]],
         "sel": [['--cls={"class_path":"Sub2","init_args":{"k":1.5}}'], ["--cls", '{"class_path": "Sub2", "init_args": {"k": 1.25}}']],
         "bad": [["--v=bad"], ["--u={}"]],
         "unk": [["--nope=1"]],
@@ -245,8 +296,10 @@ def concretize(ab: dict, rnd) -> dict:
             c["text"] = "x: [1" if (ab["pre"] == "fail" and ab.get("spec", "none") == "none" and rnd.random() < 0.3) else json.dumps(obj)
         else:
             c["obj"] = obj
-    elif m == "get_defaults":
+    elif m in ("get_defaults", "format_help"):
         pass
+    elif m == "environment":
+        c["file"] = ab["file"]
     else:  # dump / validate / instantiate_classes: the argument is built by hand (never through a parser)
         c["cfg"] = {"bad": ab["pre"] == "fail", "sub": rnd.choice(["none", "a", "b"]) if p == "A" else "none"}
         if m == "dump":
@@ -264,7 +317,7 @@ def abstract_record(ab: dict, c: dict, coarse_tag=None) -> dict:
             "tag": tag_of(c["argv"]) if ab["m"] == "parse_args" else "-",
             "stag": tag_of(c["sargv"]) if ab["m"] == "parse_args" and c.get("sargv") is not None else "-", "items": list(ab["items"]), "sub": ab["sub"],
             "sitems": list(ab["sitems"]), "pre": ab["pre"], "sel": ab["sel"], "dumpf": ab["dumpf"], "late": ab["late"],
-            "ser": bool(ab["ser"]), "dkv": ab["dkv"], "spec": ab.get("spec", "none")}
+            "ser": bool(ab["ser"]), "dkv": ab["dkv"], "spec": ab.get("spec", "none"), "file": ab.get("file", "-")}
 
 
 def hand_cfg(p: str, spec: dict):
@@ -300,6 +353,12 @@ def do_call(c: dict, parser, filedir: str):
         return parser.parse_env(dict(c["env"]))
     if m == "get_defaults":
         return parser.get_defaults()
+    if m == "format_help":  # the text itself is not an observable of the property (it gains --print_shtab after the first parse)
+        parser.format_help()
+        return "<help text>"
+    if m == "environment":  # not a call of the library: the default config file is written / edited / removed
+        set_dcf(c["p"], c["file"], filedir)
+        return None
     cfg = hand_cfg(c["p"], c["cfg"])
     if m == "dump":
         return parser.dump(cfg, skip_none=c["skip_none"])
@@ -357,7 +416,8 @@ def run_call(c: dict, parser, filedir: str) -> dict:
     res["out"] = text
     cls = res["ch"]
     if cls == "exit0":
-        cls = "exit0:help" if text.lstrip().startswith("usage:") else ("exit0:config" if text else "exit0:silent")
+        cls = ("exit0:help" if text.lstrip().startswith("usage:") else "exit0:shtab" if "shtab" in text[:300]
+               else "exit0:config" if text else "exit0:silent")
     elif cls.startswith("exit") and cls != "exit2":
         cls = "exit:other"
     blob = json.dumps(res, sort_keys=True, default=str)
@@ -401,7 +461,8 @@ def observe(P: dict, cwd0: str, base: Optional[dict] = None) -> dict:
                 pend[name] = "full" if pc["key"] is None else str(pc["key"])
             else:
                 pend[name] = "popped"
-            shtab[name] = any(type(a).__name__ == "ShtabAction" for a in q._actions)
+            shtab[name] = ("added" if any(type(a).__name__ == "ShtabAction" for a in q._actions)
+                           else "broken" if "--print_shtab" in getattr(q, "_option_string_actions", {}) else "no")
         args[name] = tag_of(getattr(q, "args", None))
     pk = _ctxvar("_actions", "parse_kwargs")
     sap = _ctxvar("_typehints", "subclass_arg_parser")
@@ -432,11 +493,13 @@ def observe(P: dict, cwd0: str, base: Optional[dict] = None) -> dict:
     if base is not None:
         # Alg: the only action ever added after construction is --print_shtab on a root parser; linked_targets of the
         # class-typed actions are written by link_arguments only
-        if any(nact[n] != base["nact"][n] + (1 if shtab.get(n) and not base["shtab"].get(n) else 0) for n in nact):
+        # (a parser on which --print_shtab ran is left out: the appended <cls>.<init_arg> actions are part of the recorded ShtabResidue)
+        if any(nact[n] != base["nact"][n] + (1 if shtab.get(n) == "added" and base["shtab"].get(n) != "added" else 0)
+               for n in nact if shtab.get(n.split(".")[0]) != "broken"):
             bad.append("n_actions")
         if links != base["links"]:
             bad.append("linked_targets")
-    return {"pending": pend, "args": args, "shtab": shtab,
+    return {"pending": pend, "args": args, "shtab": shtab, "dcf": {n: get_dcf(n, cwd0) for n in P if "." not in n},
             "pk": "n/a" if pk is None else ("unset" if not pkv else kw_code(pkv.get("env"), pkv.get("defaults"))),
             "sap": "n/a" if sap is None else sapname,
             "dk": "n/a" if dk is None else ("unset" if not dkv else ",".join(f"{k}={dkv[k]}" for k in sorted(dkv))),
@@ -462,7 +525,7 @@ def run_history(task: dict) -> dict:
         os.environ.update(task.get("process_env", {}))
         P = {}
         for r in ROOTS:
-            P.update(build(r))
+            P.update(build(r, d))
         init = observe(P, d)
         steps = []
         probes = task.get("probe") or [True] * len(task["calls"])
@@ -470,7 +533,7 @@ def run_history(task: dict) -> dict:
             reused = run_call(c, P[c["p"]], d)
             post = observe(P, d, init)
             if probe:
-                fresh = contextvars.copy_context().run(lambda: run_call(c, build(c["p"])[c["p"]], d))
+                fresh = contextvars.copy_context().run(lambda: run_call(c, build(c["p"], d)[c["p"]], d))
                 post2 = observe(P, d, init)
                 clean = {k: post2[k] for k in ("pending", "pk", "sap", "dk", "managed")} == {k: post[k] for k in ("pending", "pk", "sap", "dk", "managed")}
             else:  # a positioning step of a tour: its transition is probed elsewhere
@@ -489,7 +552,9 @@ def run_pristine(task: dict) -> dict:
     try:
         os.environ.update(task.get("process_env", {}))
         c = task["call"]
-        return {"key": task["key"], "out": run_call(c, build(c["p"])[c["p"]], d)}
+        for root, state in c.get("files", {}).items():  # the environment as it is when the call is made in its history
+            set_dcf(root, state, d)
+        return {"key": task["key"], "out": run_call(c, build(c["p"], d)[c["p"]], d)}
     finally:
         os.chdir("/")
         common.rm(d)
@@ -600,14 +665,65 @@ def make_tours(states: dict, init_key: str, op_ids: list, maxlen: int):
 
 
 # ------------------------------------------------------------------------------------------------ random histories beyond the model's universe
+def AB(m: str, p: str, **kw) -> dict:
+    """an abstract call (the record of Context.tla) with the defaults of MC_Context's O()."""
+    ab = {"id": "", "m": m, "p": p, "kw": DEF_KW if m == "parse_args" else "-", "items": [], "sub": "none", "sitems": [], "pre": "ok", "sel": "none",
+          "dumpf": "none", "late": "ok", "ser": m == "dump", "dkv": "skip_none=True,skip_validation=False", "spec": "none", "file": "-"}
+    ab.update(kw)
+    return ab
+
+
+def probes_for(p: str) -> list:
+    """the answering calls asked after an earlier call: defaults, a parse without arguments, a parse without defaults, the
+    dump of a parse (--print_config), a dump, a parse_object - each compared with a fresh parser built against the CURRENT
+    environment."""
+    return [AB("get_defaults", p), AB("parse_args", p), AB("parse_args", p, kw="env=None,defaults=False", items=["ok"]),
+            AB("parse_args", p, items=["pc"]), AB("dump", p), AB("parse_object", p)]
+
+
+def scenarios(ops: dict) -> list:
+    """targeted histories, generated generically from the model's call universe:
+    (1) every call of the universe that does NOT return normally on a fresh parser (error, exit 2, help / config / completion
+        script printed, raise), followed by the probe calls on the same parser and a parse on the other parser;
+    (2) default config file written, a help-printing call (--help, format_help(), class help), then the file edited / removed /
+        left alone, then the probe calls (what the help formatter or any cache took from the file must not stick)."""
+    out = []
+    for oid in sorted(ops):
+        o = ops[oid]
+        if o["m"] != "environment" and o.get("_ref", "return") != "return":
+            other = "B" if o["p"] == "A" else "A"
+            out.append([dict(o)] + probes_for(o["p"]) + [AB("parse_args", other, items=["ok"])])
+    for p in ROOTS:  # (3) the completion script is printed, then everything is asked again (recorded ShtabResidue)
+        if not any(o["p"] == p and "shtab" in o["items"] for o in ops.values()):
+            out.append([AB("parse_args", p, items=["shtab"])] + probes_for(p) + [AB("format_help", p), AB("parse_args", "B" if p == "A" else "A", items=["ok"])])
+    for p in ROOTS:
+        helps = [AB("parse_args", p, items=["help"]), AB("format_help", p)] + ([AB("parse_args", p, items=["clshelp"])] if p == "A" else [])
+        for h in helps:
+            for e in (None, "v2", "absent"):
+                out.append([AB("environment", p, file="v1"), h] + ([AB("environment", p, file=e)] if e else []) + probes_for(p))
+    return out
+
+
+def annotate_files(calls: list) -> None:
+    """the state of the default config files BEFORE each call of a history (by construction), for the pristine comparison."""
+    state = {r: "absent" for r in ROOTS}
+    for c in calls:
+        c["files"] = dict(state)
+        if c["m"] == "environment":
+            state[c["p"]] = c["file"]
+
+
 def random_abstract(rnd, maxitems=4) -> dict:
     p = "A" if rnd.random() < 0.75 else "B"
-    m = rnd.choices(["parse_args", "parse_object", "parse_string", "parse_path", "parse_env", "get_defaults", "dump", "validate", "instantiate_classes"],
-                    [46, 8, 10, 6, 5, 6, 8, 5, 6])[0]
+    m = rnd.choices(["parse_args", "parse_object", "parse_string", "parse_path", "parse_env", "get_defaults", "dump", "validate", "instantiate_classes",
+                     "environment", "format_help"], [44, 8, 10, 6, 5, 7, 8, 4, 5, 8, 3])[0]
     ab = {"id": "", "m": m, "p": p, "kw": "-", "items": [], "sub": "none", "sitems": [], "pre": "ok", "sel": "none", "dumpf": "none",
-          "late": "ok", "ser": False, "dkv": "skip_none=True,skip_validation=False", "spec": "none"}
-    if m == "parse_args":
-        kinds = ["ok", "ok", "ok", "sel", "sel", "bad", "unk", "pc", "pc", "pcflag", "help", "cfg", "cfgbad", "cfgbad"] + (["clshelp", "ncls"] if p == "A" else [])
+          "late": "ok", "ser": False, "dkv": "skip_none=True,skip_validation=False", "spec": "none", "file": "-"}
+    if m == "environment":
+        ab["file"] = rnd.choice(["v1", "v1", "v2", "absent"])
+    elif m == "parse_args":
+        kinds = (["ok", "ok", "ok", "sel", "sel", "bad", "unk", "pc", "pc", "pcflag", "help", "help", "cfg", "cfgbad", "cfgbad"]
+                 + (["clshelp", "ncls"] if p == "A" else []) + (["shtab"] if rnd.random() < 0.12 else []))
         ab["items"] = [rnd.choice(kinds) for _ in range(rnd.randint(0, maxitems))]
         if "clshelp" in ab["items"]:  # whatever follows --cls.help is handed to a throw-away help parser: keep it last
             ab["items"] = ab["items"][: ab["items"].index("clshelp") + 1]
@@ -715,7 +831,7 @@ def main(argv):
         for oid, cov in w:
             if cov:
                 covered.add((cur, oid))
-            ab = dict(ops[oid])
+            ab = {k: v for k, v in ops[oid].items() if not k.startswith("_")}
             c = concretize(ab, rnd)
             calls.append(c)
             abss.append(abstract_record(ab, c))
@@ -726,6 +842,20 @@ def main(argv):
     if len(covered) != n_trans:
         machinery_failure(PID, f"tours cover {len(covered)} of {n_trans} transitions")
     n_tour = len(tasks)
+    # targeted scenarios (all steps probed)
+    ref_of = {oid: t[2] for oid, t in states[init_key].items()}
+    for oid, o in ops.items():
+        o["_ref"] = ref_of[oid]
+    for seq in scenarios(ops):
+        calls, abss = [], []
+        for ab in seq:
+            ab = {k: v for k, v in ab.items() if not k.startswith("_")}
+            c = concretize(ab, rnd)
+            calls.append(c)
+            abss.append(abstract_record(ab, c))
+        tasks.append({"tid": len(tasks) + 1, "calls": calls})
+        meta.append({"kind": "scenario", "abs": abss})
+    n_scen = len(tasks) - n_tour
     n_random = 100 if tier == "quick" else 1500
     for _ in range(n_random):
         calls, abss = [], []
@@ -738,7 +868,9 @@ def main(argv):
         tasks.append({"tid": len(tasks) + 1, "calls": calls, "process_env": penv})
         meta.append({"kind": "random", "abs": abss, "process_env": penv})
 
-    # pristine outcomes, one forked child per distinct (call, process environment)
+    for t in tasks:
+        annotate_files(t["calls"])
+    # pristine outcomes, one forked child per distinct (call, state of the default config files, process environment)
     pr_tasks, pr_index = [], {}
     for t in tasks:
         for c in t["calls"]:
@@ -758,7 +890,8 @@ def main(argv):
 
     # ---- build the trace file(s) with dedup tables
     results.sort(key=lambda r: r["tid"])
-    res0 = {"pending": {r: "none" for r in ROOTS}, "args": {n: "unset" for n in NAMES}, "shtab": {r: False for r in ROOTS}}
+    res0 = {"pending": {r: "none" for r in ROOTS}, "args": {n: "unset" for n in NAMES}, "shtab": {r: "no" for r in ROOTS},
+            "dcf": {r: "absent" for r in ROOTS}}
     traces_all = []
     shorts = {}
     n_steps = 0
@@ -775,7 +908,7 @@ def main(argv):
             for o in (st["reused"], st["fresh"], pr):
                 if o is not None:
                     shorts[o["d"]] = o["short"]
-            steps.append({"op": ab, "post": {k: st["post"][k] for k in ("pending", "args", "shtab", "pk", "sap", "dk", "managed")},
+            steps.append({"op": ab, "post": {k: st["post"][k] for k in ("pending", "args", "shtab", "dcf", "pk", "sap", "dk", "managed")},
                           "leaked": st["post"]["leaked"],
                           "r": {"c": st["reused"]["c"], "d": st["reused"]["d"]}, "f": {"c": st["fresh"]["c"], "d": st["fresh"]["d"]} if st["fresh"] else None,
                           "p": {"c": pr["c"], "d": pr["d"]}})
@@ -826,8 +959,9 @@ def main(argv):
     # ---- evidence
     rep.traces = n_steps
     rep.evaluations = n_steps
-    rep.extra.update({"tours": n_tour, "tour_steps": sum(len(t["calls"]) for t in tasks[:n_tour]), "random_histories": n_random,
-                      "random_steps": sum(len(t["calls"]) for t in tasks[n_tour:]), "pristine_process_runs": len(pr_tasks),
+    rep.extra.update({"scenarios": n_scen, "tours": n_tour, "tour_steps": sum(len(t["calls"]) for t in tasks[:n_tour]), "random_histories": n_random,
+                      "scenario_steps": sum(len(t["calls"]) for t in tasks[n_tour:n_tour + n_scen]),
+                      "random_steps": sum(len(t["calls"]) for t in tasks[n_tour + n_scen:]), "pristine_process_runs": len(pr_tasks),
                       "replayed_model_transitions": len(covered)})
     for steps in traces_all:
         prev = None
@@ -868,6 +1002,8 @@ def main(argv):
             pend = pend if pend in ("full", "popped") else "sub"
             rep.violation(f"print-config-residue/as-alg:{pend}:{meth}",
                           f"{meth} after a --print_config request that survived an earlier failed/aborted parse_args (pending={detail['ref-pending-as-alg']})", case)
+        elif "ref-shtab-as-alg" in names:
+            rep.violation(f"shtab-residue/as-alg:{meth}", f"{meth} fails after --print_shtab=<shell> was run on the same root parser", case)
         elif "ref-process" in names:
             rep.violation(f"process-residue:{meth}:{s['r']['c']}-vs-{s['p']['c']}", f"{meth} answers differently in this process than in a pristine process (fresh parser in the same process agrees with the reused one)", case)
         elif "ref" in names:
@@ -898,8 +1034,10 @@ def _python_repro(calls) -> str:
             lines.append(f"P[{c['p']!r}].parse_path(<file in ./conf holding {c['text']!r}>)")
         elif c["m"] == "parse_env":
             lines.append(f"P[{c['p']!r}].parse_env({c['env']!r})")
-        elif c["m"] == "get_defaults":
-            lines.append(f"P[{c['p']!r}].get_defaults()")
+        elif c["m"] in ("get_defaults", "format_help"):
+            lines.append(f"P[{c['p']!r}].{c['m']}()")
+        elif c["m"] == "environment":
+            lines.append(f"<default config file of {c['p']} := {c['file']}>  # set_dcf({c['p']!r}, {c['file']!r})")
         else:
             lines.append(f"P[{c['p']!r}].{c['m']}(hand_cfg({c['p']!r}, {c['cfg']!r}))")
     return "; ".join(lines)
